@@ -8,7 +8,7 @@
    reported position at the link's end (Sync_lemmas.v: link_read_to_end).
    That the read then crosses into the next link and delivers it from its
    first sample is established per run (tie + oracle), see DESIGN.md. *)
-From VV Require Import Blocking VFile VFile_lemmas VFileDemo Sync_lemmas.
+From VV Require Import Blocking VFile VFile_lemmas VFileDemo Sync_lemmas Seek_lemmas.
 From Coq Require Import ZArith List Lia.
 Import ListNotations.
 Local Open Scope Z_scope.
@@ -71,3 +71,20 @@ Proof.
     repeat (split; [vm_compute; split; [reflexivity|first [left; reflexivity|right; reflexivity]]|]). exact I.
   - vm_compute. repeat split; reflexivity.
 Qed.
+
+(* reading from the start of a freshly opened handle (hypotheses: one executable test): the first fetch delivers
+   nothing and leaves the handle in sync at position 0 of the link; the two theorems on linear reading and on the
+   end of the link then account for every sample up to the link's length *)
+Theorem C09_read_from_start_is_in_sync :
+  forall s, start_hyps s = true ->
+    let s2 := make_ready s in
+    exists p r w s0,
+      stream (auto_tail s) s2 = p :: r /\ pk_W p = Some w /\
+      fetch (fetch_fuel s2) s2 = (1, feed s0 p w) /\
+      SyncInv (feed s0 p w) 0 /\ dec_pcmout (v_dec (feed s0 p w)) = 0 /\ v_pcm (feed s0 p w) = v_pcm s /\
+      IntactS (cur_link s) false 0 w r.
+Proof. exact read_from_start. Qed.
+Print Assumptions C09_read_from_start_is_in_sync.
+
+Example C09_start_hyps_nonvacuous : start_hyps demo2 = true /\ start_hyps demo = true.
+Proof. split; vm_compute; reflexivity. Qed.
